@@ -20,12 +20,12 @@ func relOf(f fact) (string, bool) {
 			return relOf(fact{u.X, !f.Val})
 		}
 		if f.Val {
-			return exprKey(f.Cond) + " == true", true
+			return sk(f.Cond) + " == true", true
 		}
-		return exprKey(f.Cond) + " == false", true
+		return sk(f.Cond) + " == false", true
 	}
 	op := b.Op
-	x, y := exprKey(b.X), exprKey(b.Y)
+	x, y := sk(b.X), sk(b.Y)
 	if !f.Val {
 		switch op {
 		case token.LSS:
